@@ -623,7 +623,7 @@ func concPart(tier string) runner.Part {
 	return runner.Part{Name: "sched", Shards: len(scs) * split, Run: func(c *runner.Ctx) *runner.Result {
 		res := &runner.Result{Outcomes: map[string]int{}}
 		sc := scs[c.Shard/split]
-		st := vexp.Explore(concScenario(sc, c.Scratch), vexp.Options{PB: pb, DetChecks: 3, Deadline: c.Deadline, Shard: c.Shard % split, Of: split, ShardLevel: 1})
+		st := vexp.Explore(concScenario(sc, c.Scratch), vexp.Options{PB: pb, FB: 2, DetChecks: 3, Deadline: c.Deadline, Shard: c.Shard % split, Of: split, ShardLevel: 1})
 		res.Evaluations, res.States, res.Transitions = st.Executions, int64(st.StateKeys), st.Transitions
 		for o, n := range st.Outcomes {
 			res.Outcomes[sc.Name+": "+o] += n
@@ -652,7 +652,7 @@ func concPart(tier string) runner.Part {
 			}
 			res.Samples = append(res.Samples, map[string]any{"scenario": sc.Name, "executions": st.Executions, "trace_head": t})
 		}
-		res.Extra = map[string]any{"preemption_bound_completed": pb}
+		res.Extra = map[string]any{"preemption_bound_completed": pb, "free_switch_bound": 2}
 		return res
 	}, Replay: func(c *runner.Ctx, raw json.RawMessage) (string, error) {
 		var r struct {
@@ -705,6 +705,15 @@ func main() {
 		return
 	}
 	runner.Main(runner.Check{
+		RacePass: func(n int, scratch string) (int, []string) {
+			total, ps := 0, []string(nil)
+			for _, sc := range concScens("quick") {
+				d, p := vexp.RacePass(concScenario(sc, scratch), n)
+				total += d
+				ps = append(ps, p...)
+			}
+			return total, ps
+		},
 		ID:          "C12",
 		Level:       "model_checking",
 		Rule:        "hist: explicit-state BFS (canonical-state dedup) over Resolve/Done/Close/TTL-expiry/registry down-up/Check/Refresh/read histories of 2 layers x 2 holders on the real layer.Resolver over an in-memory registry with a failing k-th request as deviation; every state is followed by a terminal probe (holders read, release all, TTL passes, everything closed, cache dirs and fds gone, re-resolve works). sched: concurrent Resolve/read/Done/Close/expiry threads under the cooperative scheduler. non-trivial = distinct canonical states",
